@@ -29,12 +29,14 @@ Print Assumptions C16_sharp_without_close.
 (* what the models take from the source, regenerated on every run: in both halves each copy goroutine closes its
    destination when its source ends; the backend handler closes the websocket on every return after the upgrade (also
    when its dial fails) and the TCP connection after a successful dial; and nowhere in the bridge is a deadline, a read
-   limit or a socket option set on a bridged connection - the models have no step that ends a connection by itself *)
+   limit or a socket option set on a bridged connection - the models have no step that ends a connection by itself - and
+   the only goroutines are the copy loops and the frontend's per-connection goroutine (no third writer or reader) *)
 Theorem C16_source_bridge :
   bridgeBackendCopyLoops = ["defer wg.Done(); io.Copy(backendConn, frontendConn); backendConn.Close()"; "defer wg.Done(); io.Copy(frontendConn, backendConn); frontendConn.Close()"]%string /\
   bridgeFrontendCopyLoops = ["defer wg.Done(); io.Copy(backendConn, conn); backendConn.Close()"; "defer wg.Done(); io.Copy(conn, backendConn); conn.Close()"]%string /\
   bridgeBackendDefers = ["cancel()"; "wsConn.Close()"; "backendConn.Close()"]%string /\
-  bridgeLimitCalls = [].
+  bridgeLimitCalls = [] /\
+  bridgeGoroutines = ["Handler: go func"; "Handler: go func"; "tcp-bridge-frontend main: go func"; "tcp-bridge-frontend main: go func"; "tcp-bridge-frontend main: go func"]%string.
 Proof. repeat split; reflexivity. Qed.
 Print Assumptions C16_source_bridge.
 
